@@ -248,6 +248,9 @@ private:
                                                  const std::string &sourceServer,
                                                  std::uint16_t sourcePort);
 
+  /// \brief Does the response carry the question the pending query asked?
+  static bool responseAnswersQuery(const PendingQuery &query, const DnsResult &result);
+
   /// \brief Retry query logic
   void retryQuery(std::shared_ptr<PendingQuery> query, const std::string &reason);
 
@@ -1022,6 +1025,20 @@ inline void DnsTransport::processResponse(const std::uint8_t *data, std::size_t 
       }
     }
 
+    // The 16-bit ID alone does not identify the exchange: a late duplicate of an
+    // earlier answer (or a forged datagram) may carry the ID of the query that is
+    // pending now. An answer is only accepted for the question that was asked.
+    if (auto pending = findPendingQuery(result.header.id, sourceServer, sourcePort))
+    {
+      if (!responseAnswersQuery(*pending, result))
+      {
+        iora::core::Logger::warning("DNS response ID=" + std::to_string(result.header.id) +
+                                    " from " + sourceServer + ":" + std::to_string(sourcePort) +
+                                    " does not answer the pending question - ignored");
+        return; // the query stays pending (its own answer, a retry or the timeout completes it)
+      }
+    }
+
     iora::core::Logger::debug("DNS response received: ID=" + std::to_string(result.header.id) +
                               " from " + sourceServer + ":" + std::to_string(sourcePort) + " via " +
                               (mode == DnsTransportMode::TCP ? "TCP" : "UDP") +
@@ -1262,6 +1279,46 @@ DnsTransport::findPendingQuery(std::uint16_t queryId, const std::string &sourceS
     return it->second;
   }
   return nullptr;
+}
+
+/// \brief True if the question section of \p result is the one \p query asked
+/// (names compared case-insensitively). A response without question section is
+/// accepted only when it reports an error (some servers omit it then).
+inline bool DnsTransport::responseAnswersQuery(const PendingQuery &query, const DnsResult &result)
+{
+  DnsResult asked;
+  try
+  {
+    asked = DnsMessage::parse(query.queryData.data(), query.queryData.size());
+  }
+  catch (const std::exception &)
+  {
+    return true; // cannot judge: keep the previous behaviour
+  }
+  if (result.questions.empty())
+  {
+    return result.header.rcode != DnsResponseCode::NOERROR;
+  }
+  if (result.questions.size() != asked.questions.size())
+  {
+    return false;
+  }
+  for (std::size_t i = 0; i < asked.questions.size(); ++i)
+  {
+    const auto &a = asked.questions[i];
+    const auto &b = result.questions[i];
+    if (a.qtype != b.qtype || a.qclass != b.qclass || a.qname.size() != b.qname.size() ||
+        !std::equal(a.qname.begin(), a.qname.end(), b.qname.begin(),
+                    [](char x, char y)
+                    {
+                      return std::tolower(static_cast<unsigned char>(x)) ==
+                             std::tolower(static_cast<unsigned char>(y));
+                    }))
+    {
+      return false;
+    }
+  }
+  return true;
 }
 
 inline void DnsTransport::completeQuery(const QueryKey &key, const DnsResult &result)
